@@ -123,7 +123,7 @@ def vtok(v):
     return "o" + ("%s:%r" % (type(v).__name__, v))[:200].encode("utf-8").hex()
 
 
-VTOK_RE = re.compile(r"'(s(?:[0-9a-f]{2})*|o(?:[0-9a-f]{2})+|n-?[0-9]+(?:/[0-9]+)?|nnan|ninf|n-inf)'")
+VTOK_RE = re.compile(r"'(s(?:[0-9a-f]{2})+|o(?:[0-9a-f]{2})+|n-?[0-9]+(?:/[0-9]+)?|nnan|ninf|n-inf)'")
 
 
 def untok_text(msg):
@@ -168,7 +168,7 @@ def expected_v(tab, op):
         return None
     if k == "create":
         if op[1] is None:
-            return e                       # createAnalyticalFeature(None, ...) returns at once
+            return None                    # None is not a feature name: no expectation on the outcome - nothing may change (no target)
         if op[1] in RESERVED:
             return None
         if op[1] in tab.cols:
@@ -1016,6 +1016,11 @@ class P(Prop):
         "model (Model/FeaturesWorld.lean) runs them and the correspondence compares every track of the session, but the theorems need pairwise distinct "
         "objects within the track and, for 'the other track is unchanged', disjoint tracks - for shared objects alignment does fail (finding "
         "derived-track-shares-observations; Props/C01World.lean shows the failing states as examples)",
+        "cell values of any type: the theorems are for every type V of values and every interpretation of the arithmetic, so they cover None, bool, str, "
+        "numpy scalars ... as cell values; that the Python write paths really hand the object given to the table (no conversion, no sentinel: what the seeded "
+        "change C01-11 broke) is checked by the correspondence at V := String (stream 'vals', calls that only move values) and by the oracle, and proved "
+        "for the modelled front ends (Props/C01Front.lean); arithmetic ON non-numbers (None + 1 raises TypeError mid-way) is not run against the model - "
+        "the theorems cover it as 'the cell function raises'; object values carried through copy / extract / + are not generated",
         "the copying derivations are proved at the level of the object references (Obs.copy() = a new object equal to the old one); that copy.deepcopy "
         "really copies the features list is what the seeded change C01-7 broke: it is checked by the correspondence with the heap model and by the oracle, not proved",
     ]
@@ -1902,6 +1907,7 @@ class P(Prop):
     def run_vops(self, t, ops):
         steps = []
         for op in ops:
+            self.vop_token(op)             # a malformed case (value spec, op layout) raises HERE: a harness error, not an exception of the call
             try:
                 r = self.call_v(t, op)
                 out = "ok"
